@@ -194,6 +194,20 @@ def odd_content(items):
                             'base': 'ov%s-%s' % (tag, item['base']),
                             'data': data[:hit.start(2)] + odd +
                             data[hit.end(2):], 'derived': True})
+        best = re.compile(rb'^[ \t]*best results are obtained with discarding '
+                          rb'\d+ batches[ \t]*\n', re.M)
+        if best.search(data) and \
+                len([o for o in out if 'no-best' in o['name']]) < 4:
+            # the automatic estimators printed without their "best results
+            # are obtained with discarding N batches" line (optional in the
+            # grammar): the first one only, and all of them
+            out.append({'name': 'no-best-line-first/' + item['base'],
+                        'path': None, 'base': 'nb1-' + item['base'],
+                        'data': best.sub(b'', data, count=1),
+                        'derived': True})
+            out.append({'name': 'no-best-line/' + item['base'],
+                        'path': None, 'base': 'nb-' + item['base'],
+                        'data': best.sub(b'', data), 'derived': True})
         if b'KSTEP ESTIMATOR' in data:
             bare = strip.sub(b'', data)
             if bare != data and b'RESPONSE FUNCTION' not in bare:
@@ -336,6 +350,19 @@ def free_format(items):
     for item in items:
         if item.get('path') is None or 'PARA' not in item['base']:
             continue
+        # the same keywords in another order: PACKET_LENGTH before BATCH
+        mpack, mbatch = pack.search(item['data']), pat.search(item['data'])
+        if mpack and mbatch and mbatch.start() < mpack.start():
+            data = item['data']
+            swapped = data[:mbatch.start()] + mpack.group(0) + \
+                data[mbatch.start():mpack.start()] + data[mpack.end():]
+            out.append({'name': 'freeformat-order/' + item['base'],
+                        'path': None, 'base': 'ffo-' + item['base'],
+                        'data': swapped,
+                        'focus': [max(0, mbatch.start() - 4),
+                                  mbatch.start() + 80],
+                        'twin_of': item['name'], 'rerun': True,
+                        'no_twin_ops': True})
         data, count = pack.subn(rb'\1PACKET_LENGTH\n\1\2\n', item['data'],
                                 count=1)
         if count == 1:
